@@ -10,7 +10,7 @@ import (
 )
 
 func init() {
-	Explanations["C07"] = "Decides structural necessary conditions of non-double-allocating wallet funding in wallet.SingleAddressWallet: (R1) the reservation map is read and written only at points where the wallet mutex is definitely held (lockset dataflow with call-site-derived entry states for unexported helpers); (R2) no error-capable return is reachable after the reservation call in any reserving function; (R3) every function that builds a pool-spent set from the v1 pool list also builds it from the v2 list and writes the same spent maps in both loops; (R4) when two loops take candidates from the same sorted candidate slice (largest-first, then defrag; or successive redistribute batches) every path between them re-slices the candidate variable past what was taken; (R5) every lock-holding loop over the stored unspent outputs applies all three filters (reserved, pool-spent, maturity) to the element; (R6) in every function that both selects (calls a helper consulting the reservation test) and reserves, no unlock of the wallet mutex lies on a path between the two; (R7) once output ids have been collected into the slice handed to the reservation call, no success return is reachable without passing that call; (R8) every lock-holding pool loop of a function that collects unconfirmed outputs into an element map deletes the ids spent by pooled inputs from that map. (R5 also) every append that collects the loop element is unreachable from the loop head without evaluating each of the three tests. NOT decided: value conservation (inputs = amount + change + fee), acceptance of the funded transaction by the pool, reservation expiry timing, behaviour after restart."
+	Explanations["C07"] = "Decides structural necessary conditions of non-double-allocating wallet funding in wallet.SingleAddressWallet: (R1) the reservation map is read and written only at points where the wallet mutex is definitely held (lockset dataflow with call-site-derived entry states for unexported helpers); (R2) no error-capable return is reachable after the reservation call in any reserving function; (R3) every function that builds a pool-spent set from the v1 pool list also builds it from the v2 list and writes the same spent maps in both loops; (R4) when two loops take candidates from the same sorted candidate slice (largest-first, then defrag; or successive redistribute batches) every path between them re-slices the candidate variable past what was taken; (R5) every lock-holding loop over the stored unspent outputs applies all three filters (reserved, pool-spent, maturity) to the element; (R6) in every function that both selects (calls a helper consulting the reservation test) and reserves, no unlock of the wallet mutex lies on a path between the two; (R7) once output ids have been collected into the slice handed to the reservation call, no success return is reachable without passing that call; (R8) every lock-holding pool loop of a function that collects unconfirmed outputs into an element map deletes the ids spent by pooled inputs from that map. (R5 also) every append that collects the loop element is unreachable from the loop head without evaluating each of the three tests. (R10) every read of an entry of the reservation map is an operand of a time.Time method together with time.Now(). NOT decided: value conservation (inputs = amount + change + fee), acceptance of the funded transaction by the pool, reservation expiry timing, behaviour after restart."
 
 	register(&Rule{ID: "C07.R1", Prop: "C07", Floor: 5,
 		Doc: "one mutex: every access to the reservation map happens with the wallet mutex held",
